@@ -320,6 +320,25 @@ func Check(tr *Trace, w Which) ([]Finding, Classes) {
 				if w.C01 {
 					add("C01", "delivery-of-unbuffered", "op %d cb %d: delivery for seq=%d ids=%v but nothing undelivered was pushed for it (duplicate or fabricated delivery)", k, ci, seq, cb.IDs)
 				}
+				// C02 still applies to what was observed: the records of this delivery were pushed by known ops; if a
+				// higher sequence was delivered after the earliest of them was pushed, this is not a late arrival
+				if w.C02 {
+					firstPush := -1
+					for _, id := range cb.IDs {
+						if id >= 0 && id < len(h.Ops) && (firstPush < 0 || id < firstPush) {
+							firstPush = id
+						}
+					}
+					if firstPush >= 0 {
+						off := h.Off(seq)
+						for _, d := range dels {
+							if d.off > off && !(firstPush > d.op) {
+								add("C02", "out-of-order", "op %d: event seq=%d (first record pushed by op %d) delivered after higher event seq=%d that was delivered in op %d", k, seq, firstPush, d.seq, d.op)
+								break
+							}
+						}
+					}
+				}
 				continue
 			}
 			if w.C01 && !equalInts(cb.IDs, e.msgs) {
